@@ -184,6 +184,7 @@ func main() {
 	variant := flag.String("variant", "std", "build/run variant name (informational)")
 	describe := flag.Bool("describe", false, "print the property's description as JSON and exit")
 	flag.Parse()
+	maybePrintSchemas()
 
 	p := registry[*prop]
 	if p == nil {
